@@ -481,7 +481,7 @@ PROPS = {
         level_text='Theorems: frames parse back exactly for every program/configuration/compressor behaviour; the client\'s copy-then-mask bufio loop puts pending ++ mask(payload) on the wire for every '
                    'buffer fill state; the trim writer sends all but the last 4 bytes for any chunking; the sliding-window dictionary is the last 32 KiB for any slice sizes. Tie: model wire = tapped wire and '
                    'model delivery = library delivery on every case; judge: received = written.',
-        level_note='C01_roundtrip_uncompressed is the end-to-end theorem for uncompressed messages; compressed round trips rest on the flate oracle and are checked case by case by running the extracted Writer∘Reader composition.',
+        level_note='C01_roundtrip_uncompressed is the end-to-end theorem for uncompressed messages; C01_compressed_delivery is the receiving half of the compressed round trip under an explicit deflater/inflater contract (every fragmentation, control frames anywhere, any buffer sizes, both roles, both takeover settings); the sending half is C02_decodes; their composition and the contract itself (compress/flate) are checked case by case by running the extracted Writer∘Reader composition against the library.',
         technique='Coq proofs (induction over chunk lists / buffer loop) + differential run of extracted Writer∘Reader vs two library endpoints',
     ),
     'C07': dict(
@@ -635,9 +635,9 @@ PROPS = {
         suites=['wire-in'], rule=WIREIN_RULE, trusted=COMMON_TRUSTED + READER_TRUST + [FLATE_ASSUME],
         assumptions=[FLATE_ASSUME, 'panics inside the Go standard library on hostile input are covered by the correspondence run only (any panic is an observation no model run produces)'],
         level_text='Theorems (every state / input): each header-level violation of the property\'s list is rejected by readLoop before any data is handed out; top-bit lengths '
-                   'and malformed Close payloads fail; header decode∘encode = id. C03_valid: for every VALID uncompressed frame stream (any fragmentation, control frames anywhere, both roles) and any read-buffer sizes the Reader model '
-                   'delivers exactly the messages the specification decoder assigns to the stream and answers its pings. Streams with violations and compressed content: model = library on every generated stream (correspondence).',
-        level_note='C03_valid is the stream-level theorem for valid uncompressed streams (both roles, all fragmentations, control frames anywhere, any buffer sizes); violations are covered by step-level theorems; compressed content via the inflate oracle (correspondence).',
+                   'and malformed Close payloads fail; header decode∘encode = id. C03_valid / C03_valid_compressed: for every VALID frame stream (any fragmentation, control frames anywhere, both roles, compressed messages with any inflater) and any read-buffer sizes the Reader model '
+                   'delivers exactly the messages the specification assigns to the stream and answers its pings; C03_first_violation: after the first header-level violation nothing more is delivered or read and Close 1002 is written. Tie: model = library on every generated stream.',
+        level_note='stream-level theorems: C03_valid (valid uncompressed streams), C03_valid_compressed (valid streams with compressed messages, for EVERY inflater: the reader feeds it payload + tail with the RFC 7692 dictionary and delivers its output), C03_first_violation / _mid (valid prefix, then a header-level violation at a message boundary or inside a fragmented message, then anything: exactly the valid messages are delivered, the read fails, Close 1002 is written, nothing behind the header is read). Sequence violations (continuation without a message, new data frame inside a message) and corrupt DEFLATE data are step-level theorems + correspondence.',
         technique='Coq proof (case analysis over the header / control-frame paths) + differential run of the extracted Reader model vs the library over scripted raw peers',
     ),
     'C04': dict(
